@@ -11,23 +11,24 @@ import framework as fw
 CHIP_FIELDS = {'bets', 'stacks', 'payoffs', 'pots_', 'subpots', 'pots', 'total_pot'}
 CHIP_OPS = {'AntePosting', 'BetCollection', 'BlindOrStraddlePosting', 'CheckingOrCalling',
             'BringInPosting', 'CompletionBettingOrRaisingTo', 'ChipsPushing', 'ChipsPulling'}
-CARD_FIELDS = {'deck', 'board', 'mucked', 'burned', 'hole', 'discarded', 'holeSt'}
+CARD_FIELDS = {'deck', 'board', 'mucked', 'burned', 'hole', 'discarded', 'holeSt', 'in_play', 'out_play'}
 CARD_OPS = {'CardBurning', 'HoleDealing', 'BoardDealing', 'StandingPatOrDiscarding',
             'HoleCardsShowingOrMucking', 'Folding', 'HandKilling'}
 PHASE_FIELDS = {'status', 'street', 'ante', 'collect', 'blind', 'burn', 'holeDeal', 'boardDeal', 'pat',
-                'actors', 'selectors', 'showdown', 'kill', 'subpots', 'pull', 'nops', 'allin', 'sri', 'src'}
+                'actors', 'selectors', 'showdown', 'kill', 'subpots', 'pull', 'nops', 'allin', 'sri', 'src',
+                'ante_ix', 'blind_ix', 'runout_ix', 'kill_ix', 'pull_ix'}
 CAN_FIELDS = {'can_post_ante', 'can_collect_bets', 'can_post_blind', 'can_burn', 'can_deal_hole',
               'can_deal_board', 'can_draw', 'can_fold', 'can_call', 'can_bring_in', 'can_cbr',
               'can_runout', 'can_show', 'can_kill', 'can_push', 'can_pull', 'can_noop'}
 BET_FIELDS = {'actors', 'cbrAmt', 'cbrCnt', 'acted', 'consec', 'bringin', 'completion', 'opener',
               'min_cbr', 'pot_cbr', 'max_cbr', 'call_amt', 'bringin_amt', 'actor', 'turn',
-              'can_fold', 'can_call', 'can_bring_in', 'can_cbr'}
+              'can_fold', 'can_call', 'can_bring_in', 'can_cbr', 'eff'}
 BET_OPS = {'Folding', 'CheckingOrCalling', 'BringInPosting', 'CompletionBettingOrRaisingTo'}
 DEAL_FIELDS = {'burn', 'holeDeal', 'boardDeal', 'pat', 'holeSt', 'hole', 'board', 'dealee', 'bdc', 'pat_idx',
                'can_burn', 'can_deal_hole', 'can_deal_board', 'can_draw'}
 DEAL_OPS = {'CardBurning', 'HoleDealing', 'BoardDealing', 'StandingPatOrDiscarding'}
-RUNOUT_FIELDS = {'selectors', 'runout', 'rflag', 'sri', 'src', 'board_count', 'board', 'can_runout'}
-SHOW_FIELDS = {'showdown', 'kill', 'sd_idx', 'can_show', 'can_kill', 'subpots', 'pots_'}
+RUNOUT_FIELDS = {'selectors', 'runout', 'rflag', 'sri', 'src', 'board_count', 'board', 'can_runout', 'runout_ix'}
+SHOW_FIELDS = {'showdown', 'kill', 'sd_idx', 'can_show', 'can_kill', 'subpots', 'pots_', 'kill_ix'}
 SHOW_OPS = {'HoleCardsShowingOrMucking', 'HandKilling', 'ChipsPushing', 'RunoutCountSelection'}
 ALL_OPS = CHIP_OPS | CARD_OPS | BET_OPS | DEAL_OPS | SHOW_OPS | {'NoOperation'}
 
@@ -105,7 +106,7 @@ engine_prop('C03', ['C03'], BET_FIELDS, BET_OPS, directed={'rule96': 0.08})
 engine_prop('C06', ['C06'], CARD_FIELDS, CARD_OPS)
 engine_prop('C07', ['C07'], PHASE_FIELDS | CAN_FIELDS, ALL_OPS, results=True)
 engine_prop('C08', ['C08'], CAN_FIELDS, set(), results=True)
-engine_prop('C09', ['C09'], PHASE_FIELDS | CHIP_FIELDS | CARD_FIELDS, ALL_OPS)
+engine_prop('C09', ['C09'], PHASE_FIELDS | CHIP_FIELDS | CARD_FIELDS, ALL_OPS, directed={'ante_allin': 0.04})
 engine_prop('C10', ['C10'], DEAL_FIELDS, DEAL_OPS, directed={'exact_deck': 0.08})
 engine_prop('C12', ['C12'], SHOW_FIELDS | CHIP_FIELDS, SHOW_OPS)
 engine_prop('C11', ['C11'], {'variant_table', 'min_cbr', 'pot_cbr', 'max_cbr', 'can_cbr', 'cbrCnt', 'cbrAmt'},
@@ -123,7 +124,8 @@ engine_prop('C16', ['C16'], {'phh'}, set(), profile={'predefined': True}, pre=pr
 engine_prop('C17', ['C17'], {'acpc'}, set(), quick=1440,
             profile={'predefined': True, 'variants': ['FT', 'NT'], 'equal_stacks': True, 'max_players': 6, 'no_antes': 0.7,
                      'tune': {'unknown': False}})
-engine_prop('C13', ['C13'], {'opener', 'actors', 'actor', 'turn', 'bringin', 'completion'}, BET_OPS)
+engine_prop('C13', ['C13'], {'opener', 'actors', 'actor', 'turn', 'bringin', 'completion'}, BET_OPS,
+            directed={'ante_allin': 0.08})
 engine_prop('C14', ['C14'], RUNOUT_FIELDS | {'subpots', 'pots_'}, {'RunoutCountSelection', 'BoardDealing', 'ChipsPushing', 'HoleCardsShowingOrMucking'})
 engine_prop('C15', ['C15'], set(), ALL_OPS)
 
